@@ -91,7 +91,9 @@ def corpus_entries(wd, quick):
 # ------------------------------------------------------------------------------------------ keys (labels only)
 def sig(x):
     k = x.get("k", "?") if isinstance(x, dict) else type(x).__name__
-    if k in ("un", "bin", "xcr"):
+    if k == "xcr":
+        return "xcr(%s%s)" % (x.get("op"), x.get("var", {}).get("name", x.get("var", {}).get("id")))
+    if k in ("un", "bin"):
         return "%s(%s)" % (k, x.get("op"))
     if k == "var":
         return "var:%s" % x.get("name", x.get("id"))
@@ -107,6 +109,17 @@ def pair_class(p):
     if a.get("k") in ("int", "float") and b.get("k") == "var" and b.get("name") in ("true", "false", "INF", "NAN"):
         return "named-constant"
     return "%s->%s" % (sig(a), sig(b))
+
+
+def first_diff(a, b):
+    """first differing line of two texts (for messages only)"""
+    la, lb = (a or "").split("\n"), (b or "").split("\n")
+    for i in range(max(len(la), len(lb))):
+        x = la[i] if i < len(la) else "<end>"
+        y = lb[i] if i < len(lb) else "<end>"
+        if x != y:
+            return "line %d: %r became %r" % (i + 1, x[:120], y[:120])
+    return "no difference"
 
 
 def rejected_key(text, err):
@@ -144,8 +157,13 @@ def judge(chk, rows, cases_by_id, tag, workers=8):
         raise lib.ToolError("Trace_FmtParse: the judge itself failed (TypeOK/KnownEvent)\n" + res.out[-3000:])
     chk.tlc_stats(res)
     by_id = {r["id"]: r for r in with_evs}
-    verdicts = re.findall(r'<<"VERDICT", (\d+), (\d+), "([^"]+)">>', res.out)
-    for cid, ei, rule in sorted(set((int(a), int(b), c) for a, b, c in verdicts)):
+    verdicts = sorted(set((int(a), int(b), c) for a, b, c in re.findall(r'<<"VERDICT", (\d+), (\d+), "([^"]+)">>', res.out)))
+    # pairs that TLC found different under Norm, per history
+    differing = {}
+    for cid, ei, rule in verdicts:
+        if rule == "NormDiffers":
+            differing.setdefault(cid, set()).add(by_id[cid]["evs"][ei - 1]["p"])
+    for cid, ei, rule in verdicts:
         row = by_id[cid]
         ev = row["evs"][ei - 1]
         case = cases_by_id.get(cid, {})
@@ -153,6 +171,7 @@ def judge(chk, rows, cases_by_id, tag, workers=8):
         text = texts.get(str(ev.get("t")))
         notes = [n for n in row.get("notes", []) if n.get("t") == ev.get("t")]
         pairs = {e["p"]: e for e in row["evs"] if e["ev"] == "pair"}
+        badp = differing.get(cid, set())
         name = case.get("name") or ("%s case %s" % (case.get("src", tag), case.get("id")))
         replay = {"src": case.get("src", tag), "case": case.get("case", case), "event": ev, "rule": rule, "text": text, "notes": notes}
         chk.add("verdict_" + rule.split(":")[0])
@@ -166,31 +185,34 @@ def judge(chk, rows, cases_by_id, tag, workers=8):
             chk.report(key, "%s: the parser rejects the printed text %r (%s); tree: %s" %
                        (name, (text or "")[:200], err.split("\n")[0], json.dumps(case.get("case", {}).get("e", ""))[:300]), replay)
         elif rule.startswith("ParseBack:different") or rule.startswith("ModelText:different"):
-            bad = [pairs[p] for p in ev.get("pairs", []) if p in pairs]
+            bad = [pairs[p] for p in ev.get("pairs", []) if p in pairs and p in badp]
             replay["pairs"] = bad
-            classes = sorted(set(pair_class(p) for p in bad if pair_class(p) not in ("int-radix", "negative-literal")))
+            classes = sorted(set("%s->%s" % (sig(p["a"]), sig(p["b"])) for p in bad))
             if ev.get("struct"):
                 st = next((n["struct"] for n in notes if "struct" in n), [[None, None]])
                 classes.append("struct:%s->%s" % (sig(st[0][0]), sig(st[0][1])))
+                replay["struct"] = st
             key = ("model-" if rule.startswith("ModelText") else "") + "parse-different:" + "+".join(classes or ["?"])
             chk.report(key, "%s: %r re-reads as a different tree: %s" %
                        (name, (text or "")[:200], "; ".join("%s  vs  %s" % (json.dumps(p["a"])[:160], json.dumps(p["b"])[:160]) for p in bad[:2])), replay)
         elif rule == "Idempotent":
             anc = [e for e in row["evs"] if e["ev"] == "parse" and e.get("ok") and e.get("a") == ev["a"] and not e.get("model")]
+            if any(e.get("struct") or any(p in badp for p in e.get("pairs", [])) for e in anc):
+                chk.add("idempotent_not_judged_after_different_reread")      # already reported as ParseBack:different
+                continue
             classes = set()
             for e in anc:
                 for p in e.get("pairs", []):
                     if p in pairs:
                         classes.add(pair_class(pairs[p]))
-                if e.get("struct"):
-                    classes.add("struct")
             before = texts.get(str(anc[0]["t"])) if anc else None
             replay["before"] = before
             classes.discard("named-constant")       # `true` re-reads as the name `true` and prints as `true` again
             if any(n.get("comments") and n.get("a") == e.get("vs") for e in anc for n in row.get("notes", [])):
                 classes.add("decompiler-comments")
-            key = "idempotent:" + "+".join(sorted(classes) or ["identical-ast"])
-            chk.report(key, "%s: printing the re-read script gives %r, the first print was %r" % (name, (text or "")[:200], (before or "")[:200]), replay)
+            for cls in sorted(classes) or ["identical-ast"]:
+                chk.report("idempotent:" + cls, "%s: printing the re-read script does not give the same text (width %s): %s" %
+                           (name, ev["ws"][0], first_diff(before, text)), replay)
         elif rule == "NoPanic":
             chk.report(panic_key(ev), "%s: %s panics at %s: %s (%s)" % (name, "the formatter" if ev["op"] == "fmt" else "the parser", ev.get("loc"),
                                                                        ev.get("msg"), ("width %s" % ev.get("w")) if ev["op"] == "fmt" else repr((text or "")[:200])), replay)
@@ -243,7 +265,9 @@ def run(chk, replay=None):
 
     # ---- Mode G: TLC enumerates the families (in-model checks inside), three generators side by side
     t0 = time.time()
-    jobs = [(fam, not quick, os.path.join(wd, fam + ".ndjson")) for fam in ("expr", "meta", "stmt")]
+    only = os.environ.get("VERIF_C08_ONLY")        # development / self-test switch: one family only
+    fams = [f for f in ("expr", "meta", "stmt") if not only or f == only]
+    jobs = [(fam, not quick, os.path.join(wd, fam + ".ndjson")) for fam in fams]
     with ThreadPoolExecutor(max_workers=3) as ex:
         results = list(ex.map(run_family, jobs))
     chk.set("wall_generators_s", round(time.time() - t0, 1))
@@ -267,10 +291,14 @@ def run(chk, replay=None):
                     if chk.rng.random() < 0.05:
                         c["widths"] = "all"
                 lib.write_ndjson(os.path.join(wd, fam + ".ndjson"), cases)
+        if fam == "stmt" and not quick:         # statements and items at every width
+            for c in cases:
+                c["widths"] = "all"
+            lib.write_ndjson(os.path.join(wd, fam + ".ndjson"), cases)
         harness("gen", os.path.join(wd, fam + ".ndjson"), WIDTHS_QUICK, fam, cases)
 
     # ---- ASTs of the real decompiler / real parser
-    corpus = corpus_entries(wd, quick)
+    corpus = corpus_entries(wd, quick) if not only or only == "corpus" else []
     cpath = os.path.join(wd, "corpus.ndjson")
     lib.write_ndjson(cpath, corpus)
     harness("corpus", cpath, WIDTHS_QUICK if quick else "all", "corpus", corpus)
@@ -297,7 +325,7 @@ def run(chk, replay=None):
     chk.set("exhaustive", True)
     chk.set("rule", "TLC-enumerated families (Gen_ExprTrees / Gen_MetaTrees / Gen_StmtTrees) are replayed completely; each history = one AST "
                     "printed at every width of its width set, every distinct text parsed, re-printed, and the re-read AST treated the same way")
-    chk.assume("widths: expressions/statements/corpora at {1,8,20,40,99,200} (thorough: all 1..200 for corpora and a 5% sample), "
-               "metadata at every width 1..longest line+3 and 200")
+    chk.assume("widths: expressions/statements/corpora at {1,8,20,40,99,200} (thorough: all 1..200 for statements, corpora and a 5% sample of the "
+               "expressions), metadata at every width 1..longest line+3 and 200 (wider targets cannot change a layout whose longest line already fits)")
     chk.assume("the built-in constant names true/false/INF/NAN are not shadowed by user definitions")
     chk.assume("where lines break is not specified; only that every layout re-reads to the same script")
